@@ -146,6 +146,8 @@ def displ_case(draw):
     rng = np.random.default_rng(draw(gen.SEEDS))
     pos = gen.walk_geometry(n, edges, rng, lo=0.1, hi=0.5)
     lengths = [float(np.linalg.norm(pos[a] - pos[b])) for a, b in edges]
+    if draw(st.booleans()):
+        lengths = rng.uniform(0.05, 0.8, len(edges)).tolist()       # a bond table that disagrees with the current geometry
     atom = draw(st.integers(0, n - 1))
     return {"n": n, "edges": edges, "pos": pos.tolist(), "lengths": lengths, "atom": atom,
             "sigma": draw(st.sampled_from([0.5, 0.1, 1.0, 2.5])), "seed": draw(gen.SEEDS)}
@@ -182,6 +184,20 @@ def check_displ(case):
             if not c <= 1e-9:
                 raise PropertyViolation("displ-perpendicular", "displacement not perpendicular to %s: |cos|=%.3e "
                                         "(atom with %d neighbours)" % (what, c, len(nbrs)),
+                                        cls="displ-perpendicular:%d" % min(len(nbrs), 3))
+    # the documented default of move_mol_atom draws the displacement the same way: the moved atom's shift obeys the same rule
+    np.random.seed((case["seed"] + 1) % 2 ** 32)
+    out = np.asarray(lib("move-random", gaddlemaps.move_mol_atom, pos, tab, atom), float)
+    dm = out[atom] - pos[atom]
+    ndm = np.linalg.norm(dm)
+    if not np.all(np.isfinite(out)):
+        raise PropertyViolation("displ-finite", "move_mol_atom without displacement gives non-finite coordinates")
+    if ndm > 0:
+        for r in refs:
+            c = abs(float(dm @ r)) / (ndm * np.linalg.norm(r))
+            if not c <= 1e-9:
+                raise PropertyViolation("displ-perpendicular", "move_mol_atom(displ=None): the drawn displacement is not "
+                                        "perpendicular to %s: |cos|=%.3e (atom with %d neighbours)" % (what, c, len(nbrs)),
                                         cls="displ-perpendicular:%d" % min(len(nbrs), 3))
     # the same seed gives the same displacement (pure function of inputs and random stream)
     np.random.seed(case["seed"])
